@@ -24,7 +24,8 @@ RULE = ("Host H (real Zeroconf: 1..2 registered services, an active browser, a s
         "neither cache, registry, question history nor the wire; afterwards canary 1 (a fresh PTR query) is answered with H's "
         "PTR within 1.4 s, canary 2 (a second real instance announcing a brand-new service) reaches H's browser as Added and canary 3 "
         "(a service announced, withdrawn by a goodbye alone or mixed with new/refreshed/flush records in one datagram, and "
-        "announced again) is reported Added both times "
+        "announced again) is reported Added both times, and canary 4 (the browser still sends its 75 % refresh query for a pointer "
+        "learned after the stream) shows the query scheduler alive "
         "within 1.5 s. Distinct = (generator, source class, delivery, handler reached, outcome) classes.")
 ASSUMPTIONS = ["canary names are unique per run so that earlier fuzz traffic cannot have pre-empted them"]
 
@@ -35,7 +36,7 @@ T2 = "_ipp._tcp.local."
 def floors(tier):
     q = tier == "quick"
     return {"c15.no_escape": 80000 if q else 10000000, "c15.oversize_ignored": 3000 if q else 400000, "c15.canary_query": 1000 if q else 100000, "c15.canary_browse": 1000 if q else 100000,
-            "c15.canary_reannounce": 1000 if q else 100000}
+            "c15.canary_reannounce": 1000 if q else 100000, "c15.canary_refresh": 1000 if q else 100000}
 
 
 def plan(tier, seed):
@@ -55,6 +56,34 @@ def invalid_utf8_label_query(rng: random.Random, answerable: str) -> bytes:
     q2 = b"".join(bytes([len(p)]) + p for p in [x.encode() for x in answerable.rstrip(".").split(".")]) + b"\x00"
     body = name1 + struct.pack(">HH", 12, 1) + q2 + struct.pack(">HH", 12, rng.choice([1, 0x8001]))
     return struct.pack(">HHHHHH", rng.randrange(65536), 0, 2, 0, 0, 0) + body
+
+
+def invalid_utf8_label_response(rng: random.Random, svcs: List[Svc]) -> Tuple[bytes, str]:
+    """Well-formed responses whose names contain labels of invalid UTF-8 (up to 63 bytes on the wire, up to 189 once decoded
+    with 'replace'), placed where the instance will want to write them back: the pointer target of the browsed type (next
+    query lists it as a known answer), the SRV target of a name being looked up (next query asks for its addresses), owner
+    names, and pointers for the host's own service types."""
+    n = rng.choice([1, 21, 22, 30, 40, 63])
+    lab = bytes([rng.choice([0xFF, 0xC0, 0xFE, 0x80])]) * n
+    if rng.random() < 0.4:
+        lab = (b"ab" + lab + b"yz")[:63]
+    t2 = [x.encode() for x in T2.rstrip(".").split(".")]
+    bad_inst = wire.Name([lab] + t2)
+    bad_host = wire.Name([lab, b"local"])
+    kind = rng.choice(["ptr-alias", "ptr-alias", "srv-target", "owner", "ptr-own-type"])
+    if kind == "ptr-alias":
+        answers = [(T2, 12, 1, rng.choice([120, 4500]), bad_inst)]
+        if rng.random() < 0.5:
+            answers += [(bad_inst, 33, 0x8001, 120, (0, 0, 80, bad_host)), (bad_host, 1, 0x8001, 120, b"\x0a\x00\x00\x07")]
+    elif kind == "srv-target":
+        inst = "ghost%d.%s" % (rng.randrange(3), T2)
+        answers = [(T2, 12, 1, 4500, inst), (inst, 33, 0x8001, 120, (0, 0, 80, bad_host)), (inst, 16, 0x8001, 4500, b"\x00")]
+    elif kind == "owner":
+        answers = [(bad_host, 1, 0x8001, 120, b"\x0a\x00\x00\x01"), (bad_inst, 33, 0x8001, 120, (0, 0, 80, "x.local.")), (bad_inst, 16, 0x8001, 4500, b"\x00")]
+    else:
+        s = rng.choice(svcs)
+        answers = [(s.type, 12, 1, 4500, wire.Name([lab] + [x.encode() for x in s.type.rstrip(".").split(".")]))]
+    return wire.build(id_=0, flags=0x8400, answers=answers, compress=rng.choice(["full", "none"])), "invalid-utf8-response-" + kind
 
 
 def about_host(rng: random.Random, svcs: List[Svc]) -> Tuple[bytes, str]:
@@ -94,8 +123,10 @@ def gen_item(rng: random.Random, svcs: List[Svc]) -> Tuple[bytes, str]:
     if r < 0.42:
         d, shape = c02.gen_compression_graph(rng)
         return d, "graph-" + shape.split("-")[0]
-    if r < 0.50:
+    if r < 0.46:
         return invalid_utf8_label_query(rng, rng.choice(svcs).type), "invalid-utf8-label"
+    if r < 0.50:
+        return invalid_utf8_label_response(rng, svcs)
     if r < 0.58:
         n = rng.choice([8967, 8968, 9000, 12000])
         base = R.build_query([(rng.choice(svcs).type, 12, False)], id_=rng.randrange(65536))
@@ -157,7 +188,11 @@ def run_stream(res: Result, seed: int) -> None:
                 while not stop["flag"]:
                     k += 1
                     info = AsyncServiceInfo(T2, "ghost%d.%s" % (k % 3, T2))
-                    await info.async_request(zc, 3000)
+                    try:
+                        await info.async_request(zc, 3000)
+                    except Exception as e:  # noqa - raised to the caller of the lookup, not into the loop; counted, not judged here
+                        res.obs("lookup_raised_%s" % type(e).__name__)
+                    await sim.sleep_ms(50)     # (a lookup satisfied from the cache returns at once)
 
             lt = asyncio.ensure_future(lookup_loop())
             await sim.sleep_ms(300)
@@ -260,6 +295,27 @@ def run_stream(res: Result, seed: int) -> None:
             elif not again:
                 viol("c15.canary_reannounce", "reannouncement_not_delivered", "%s was announced, withdrawn (%s) and announced again 1.1 s later; the browser of H "
                      "did not report it again (cached PTRs for the type: %r)" % (rname, shape, sorted(r.alias for r in zc.cache.entries_with_name(T2) if hasattr(r, "alias"))), shape=shape)
+            # ---- canary 4: the browser's query scheduler is still running: the pointer re-announced by canary 3 (TTL raised to the
+            #      1125 s floor) must be asked for again at about 75 % of that TTL
+            res.mon("c15.canary_refresh")
+            ann2 = [(("PTR", T2, (rname,)), 1125, False)]
+            sim.net.inject_now(host, R.build_response(ann2, id_=0), fake)
+            t_learn = sim.now_ms()
+            mark = len(sim.net.trace)
+            await sim.sleep_ms(1125_000 * 0.80)
+            asked = False
+            for e in sim.net.trace[mark:]:
+                if e["host"] != "H" or e["t"] < t_learn + 1125_000 * 0.70:
+                    continue
+                # (only the header and the question section are parsed: a known-answer list built from hostile cached names
+                #  need not be parseable, but the questions still reach every responder)
+                d = e["data"]
+                qs = wire.questions_only(d) if len(d) > 12 and not (d[2] & 0x80) else None
+                if qs and any(q.type == 12 and q.name.text().lower() == T2.lower() for q in qs):
+                    asked = True
+            if not asked:
+                viol("c15.canary_refresh", "browser_stopped_querying", "the browser of H sent no query for %s between 70 %% and 80 %% of the TTL of a pointer it "
+                     "learned after the stream (its refresh scheduler no longer runs)" % T2)
             lt.cancel()
             await browser.async_cancel()
             await azc.async_close()
@@ -275,7 +331,7 @@ def run_stream(res: Result, seed: int) -> None:
             if "Task was destroyed" in str(esc.get("message")):
                 continue
             if seen == res.violation_count:
-                viol("c15.no_escape", "exception_escaped_from_timer", "%s reached the loop exception handler: %s" % (esc.get("exc_type"), (esc.get("tb") or "")[-500:]),
+                viol("c15.no_escape", "exception_escaped_from_timer", "%s reached the loop exception handler: %s" % (esc.get("exc_type"), (esc.get("tb") or "")[:1800]),
                      exc_type=esc.get("exc_type"))
                 break
     res.evaluations += 1
